@@ -187,8 +187,11 @@ def run(prop, seed, budget, ctx):
                 failures.append({"kind": "P", "k_ok": True, "part": "late-order", "cls": f"LO{i}", "class_src": ["@dataclass class with int fields f0..f3, no order at definition"], "history": hist_l,
                                  "expected": perm, "views": got, "why": ["order-registered-after-first-use-not-followed:" + ",".join(sorted(bad))]})
                 break
+    import objmodel
+    of_, on_, od_, oh_ = objmodel.run_part("C16", seed, budget)
+    failures += of_; late_n += on_; distinct |= od_
     return {"evaluations": len(meta) + late_n, "distinct_nontrivial": len(distinct),
-            "rule": "a class-level order registered after first use (all views follow it); generated dataclasses (1-4 fields, 0-2 serialized methods, order value/after/before/overriding) x 4 views (serialize, both schemas, GraphQL object type); "
+            "rule": "init variables between fields, inherited and generic classes: schema properties in declaration order (object-model scenarios); a class-level order registered after first use (all views follow it); generated dataclasses (1-4 fields, 0-2 serialized methods, order value/after/before/overriding) x 4 views (serialize, both schemas, GraphQL object type); "
                     "non-trivial = at least one order() or overriding; distinct by (view, fields, orders)",
             "samples": [{k: meta[i][k] for k in ("class_src", "view", "real", "model")} for i in range(0, min(len(meta), 9), 3)],
             "histograms": dict(hist), "failures": failures,
